@@ -651,3 +651,30 @@ def case_scatter_dynamic_axis_range():
 
 
 CASES["scatter_dynamic_axis_range"] = case_scatter_dynamic_axis_range
+
+
+def case_conv_auto_pad_dilations():
+    import onnx_ir as ir
+    from onnxscript.rewriter.rules.common import _fuse_pad_into_conv as R
+    bad = 0
+    for ap in ("SAME_UPPER", "SAME_LOWER"):
+        for dil, strides, size in (([2, 2], [1, 1], 6), ([3, 1], [2, 1], 7), ([1, 1], [2, 2], 5)):
+            w = numpy_helper.from_array(np.ones((1, 1, 3, 3), np.float32), "w")
+            out = [-(-size // strides[0]), -(-size // strides[1])]
+            g = helper.make_graph([helper.make_node("Conv", ["x", "w"], ["y"], auto_pad=ap, dilations=dil, strides=strides, kernel_shape=[3, 3])], "g",
+                                  [vi("x", TensorProto.FLOAT, [1, 1, size, size])], [vi("y", TensorProto.FLOAT, [1, 1] + out)], [w])
+            m = helper.make_model(g, opset_imports=[helper.make_opsetid("", 18)], ir_version=9)
+            onnx.checker.check_model(m, full_check=True)
+            f = {"x": np.arange(size * size, dtype=np.float32).reshape(1, 1, size, size)}
+            a = np.asarray(run(m, f)[0])
+            mm = ir.serde.deserialize_model(m)
+            n = R.normalize_pad_format_conv_rule.apply_to_model(mm)
+            b = np.asarray(run(ir.serde.serialize_model(mm), f)[0])
+            if a.shape != b.shape or not np.array_equal(a, b):
+                pads = [list(nd.attributes["pads"].as_ints()) for nd in mm.graph if "pads" in nd.attributes]
+                print(f"Conv<auto_pad={ap}, dilations={dil}, strides={strides}, kernel 3x3> on {size}x{size}: rule applied {n}x with pads {pads}; output shape {a.shape} -> {b.shape}")
+                bad += 1
+    return bad
+
+
+CASES["conv_auto_pad_dilations"] = case_conv_auto_pad_dilations
